@@ -7,6 +7,7 @@ import (
 	"io"
 	"os"
 	"path/filepath"
+	"sync"
 
 	"github.com/itchio/lake"
 	"github.com/itchio/lake/pools"
@@ -296,6 +297,37 @@ func c04Run(c lib.Case, env *lib.Env) lib.Result {
 		res.Violate("assertvalid-error-on-pristine", err.Error())
 	}
 	res.Add("validations", 2)
+	// several validations of the pristine build running at the same time in this process (separate contexts) must
+	// not disturb each other
+	if c.ID%3 == 0 {
+		var wg sync.WaitGroup
+		errs := make([]error, 4)
+		for k := range errs {
+			wg.Add(1)
+			go func(k int) {
+				defer wg.Done()
+				if k%2 == 0 {
+					errs[k] = pwr.AssertValid(newDir, sigInfo)
+					return
+				}
+				wpk := filepath.Join(env.Scratch, fmt.Sprintf("wounds-conc%d.pww", k))
+				v := &pwr.ValidatorContext{WoundsPath: wpk, Consumer: lib.Quiet()}
+				errs[k] = v.Validate(context.Background(), newDir, sigInfo)
+				if _, serr := os.Stat(wpk); serr == nil && errs[k] == nil {
+					_, ws, _ := lib.DecodeWounds(mustRead(wpk))
+					errs[k] = fmt.Errorf("wounds file with %d wounds: %v", len(ws), ws)
+				}
+			}(k)
+		}
+		wg.Wait()
+		for k, e := range errs {
+			if e != nil {
+				res.Violate("concurrent-validations:wounds-or-error-on-pristine", fmt.Sprintf("validation %d of 4 running at the same time: %v", k, e))
+				break
+			}
+		}
+		res.Add("concurrent_validation_groups", 1)
+	}
 	// one validator context used again: first on a damaged copy, then on the pristine build
 	dam := filepath.Join(env.Scratch, "dam")
 	if err := nb.Materialize(dam); err == nil {
@@ -368,7 +400,7 @@ func init() {
 	lib.Register(&lib.Property{
 		ID:          "C04",
 		Level:       "exploration",
-		Rule:        "builds with file sizes swept over {0,1,16K±1,32K±1,n·64K±1 (n=1..5,65)}, content classes {random, zero, periodic}, many-tiny-file builds, symlinks, empty dirs; both producers (diff-time signing through a source pool that slices every read randomly and yields, and stand-alone signing) compared hash-by-hash against a reference signature written from the specification; every compression setting of the signature stream; Validate (wounds-file mode) and AssertValid on the pristine build must report nothing; the same holds for a validator context that has just validated a damaged copy (two random structural/content damages) and is used again on the pristine build. Builds that are a single regular file (tlc.WalkAny on a file): one pool object serves stand-alone signing and then diff-time signing twice, all three compared with the reference; the file itself and a copy are validated as the target. Symlink destinations are spelled in non-normal forms half of the time (./x, x/../y, a//b, trailing /., absolute, upward, spaces). distinct = distinct (size/content class or relation label, algorithm)",
+		Rule:        "builds with file sizes swept over {0,1,16K±1,32K±1,n·64K±1 (n=1..5,65)}, content classes {random, zero, periodic}, many-tiny-file builds, symlinks, empty dirs; both producers (diff-time signing through a source pool that slices every read randomly and yields, and stand-alone signing) compared hash-by-hash against a reference signature written from the specification; every compression setting of the signature stream; Validate (wounds-file mode) and AssertValid on the pristine build must report nothing; the same holds for a validator context that has just validated a damaged copy (two random structural/content damages) and is used again on the pristine build. Every third case also runs four validations of the pristine build at the same time (separate contexts). Builds that are a single regular file (tlc.WalkAny on a file): one pool object serves stand-alone signing and then diff-time signing twice, all three compared with the reference; the file itself and a copy are validated as the target. Symlink destinations are spelled in non-normal forms half of the time (./x, x/../y, a//b, trailing /., absolute, upward, spaces). distinct = distinct (size/content class or relation label, algorithm)",
 		Assumptions: []string{"crypto/md5 and the reference weak-hash formula are correct"},
 		Flavors:     func(tier string) []string { return []string{"plain", "race"} },
 		Cases:       c04Cases,
